@@ -129,6 +129,12 @@ def pres_units():
         units.append(corpus.Unit("XE%d" % k, "pub type XE%d = %s;" % (k, t), [], serde=False))
         pairs.append(("flatten-enum", t, unit("pub struct @ { #[ts(flatten)] pub f: %s, pub tail: String }" % t), ("inter", "XOnlyTail", "XE%d" % k)))
         pairs.append(("flatten-enum-only", t, unit("pub struct @ { #[ts(flatten)] pub f: %s }" % t), ("inter", None, "XE%d" % k)))
+    # a flattened map next to own properties / a tag / another flattened struct: the intersection of the parts
+    for k, t in enumerate(["BTreeMap<String, i32>", "HashMap<String, Inner>", "BTreeMap<UnitE, Option<i32>>"]):
+        units.append(corpus.Unit("XM%d" % k, "pub type XM%d = %s;" % (k, t), [], serde=False))
+        pairs.append(("flatten-map", t, unit("pub struct @ { #[ts(flatten)] pub f: %s, pub tail: String }" % t), ("inter", "XOnlyTail", "XM%d" % k)))
+        pairs.append(("flatten-map-only", t, unit("pub struct @ { #[ts(flatten)] pub f: %s }" % t), ("inter", None, "XM%d" % k)))
+        pairs.append(("flatten-map-first", t, unit("pub struct @ { pub tail: String, #[ts(flatten)] pub f: %s }" % t), ("inter", "XOnlyTail", "XM%d" % k)))
     units.append(corpus.Unit("XOnlyTail", "pub type XOnlyTail = OnlyTail;", [], serde=False))
     # inlined inside flattened, flattened inside inlined
     for n_ in ("Mid1", "Mid2", "MidFlat"):
